@@ -91,6 +91,13 @@ func runHistories(c *ctx, which string) error {
 		cfg.Unaligned = c.rng.Intn(5) == 0
 		cfg.Exact = c.rng.Intn(3) == 0
 		cfg.SkipIdx = c.rng.Intn(3) == 0
+		// wide histories: many names and large transactions in small blocks, so that the tables a
+		// compaction writes have multi-block sections with index blocks (ref, obj and log)
+		wide := which != "c12" && c.rng.Intn(6) == 0
+		if wide {
+			cfg.BlockSize = uint32(256 + c.rng.Intn(200))
+			hist["wide-histories"]++
+		}
 		skipNameCheck := which != "c12" && c.rng.Intn(2) == 0
 		if which == "c15" {
 			skipNameCheck = true
@@ -122,7 +129,11 @@ func runHistories(c *ctx, which string) error {
 			pool = conflictNames
 		} else {
 			seen := map[string]bool{}
-			for len(pool) < 3+c.rng.Intn(8) {
+			want := 3 + c.rng.Intn(8)
+			if wide {
+				want = 30 + c.rng.Intn(30)
+			}
+			for len(pool) < want {
 				nm := "refs/" + genName(c.rng)
 				if len(nm) < 60 && !seen[nm] && !strings.Contains(nm, "\x00") {
 					seen[nm] = true
@@ -140,6 +151,16 @@ func runHistories(c *ctx, which string) error {
 			oids = append(oids, h)
 		}
 		nops := 3 + c.rng.Intn(10)
+		cancelPrefix := which != "c12" && which != "c13" && c.rng.Intn(8) == 0
+		var cancelNames []string
+		if cancelPrefix {
+			nops += 4
+			cancelNames = append(cancelNames, pool[c.rng.Intn(len(pool))])
+			if n2 := pool[c.rng.Intn(len(pool))]; n2 > cancelNames[0] {
+				cancelNames = append(cancelNames, n2)
+			}
+			hist["cancelling-prefix-histories"]++
+		}
 		var ops []string
 		var obs []string
 		seenTab := map[string]bool{}
@@ -217,6 +238,9 @@ func runHistories(c *ctx, which string) error {
 				o.auto = c.rng.Intn(3) == 0
 				ui := st.NextUpdateIndex()
 				nr := c.rng.Intn(4)
+				if wide {
+					nr = c.rng.Intn(28)
+				}
 				if which == "c12" {
 					nr = 1 + c.rng.Intn(3)
 				}
@@ -250,10 +274,17 @@ func runHistories(c *ctx, which string) error {
 					}
 					set := map[lk]bool{}
 					nl := c.rng.Intn(4)
+					if wide {
+						nl = c.rng.Intn(14)
+					}
 					for k := 0; k < nl; k++ {
 						u := ui
 						nm := pool[c.rng.Intn(len(pool))]
-						if c.rng.Intn(3) == 0 && ui > 1 {
+						if c.rng.Intn(9) == 0 {
+							// the writer does not tie a reflog entry's update index to the table's limits:
+							// an entry beyond every table's range (expiry windows must still judge it by its own index)
+							u = ui + 1 + uint64(c.rng.Intn(4))
+						} else if c.rng.Intn(3) == 0 && ui > 1 {
 							u = 1 + uint64(c.rng.Intn(int(ui)))
 							// mostly aim at a log entry that exists (so that the record written is its tombstone)
 							if len(liveLogs) > 0 && c.rng.Intn(4) > 0 {
@@ -272,7 +303,7 @@ func runHistories(c *ctx, which string) error {
 					})
 					for _, k := range ks {
 						l := reftable.LogRecord{RefName: k.n, UpdateIndex: k.u}
-						if k.u == ui || c.rng.Intn(3) == 0 { // else: deletion of an older entry
+						if k.u >= ui || c.rng.Intn(3) == 0 { // else: deletion of an older entry
 							liveLogs = append(liveLogs, lkey{k.n, k.u})
 							l.New = oids[c.rng.Intn(3)]
 							if c.rng.Intn(2) == 0 {
@@ -281,10 +312,33 @@ func runHistories(c *ctx, which string) error {
 							l.Name = "n"
 							l.Email = "e"
 							l.Time = uint64(1000 + c.rng.Intn(10))
-							l.Message = []string{"m", "msg\n", " sp ", "x\n\n"}[c.rng.Intn(4)]
+							l.Message = []string{"m", "msg\n", " sp ", "x\n\n", "cr\r\n", "cr\r", "t\t\n"}[c.rng.Intn(7)]
 						}
 						o.logs = append(o.logs, l)
 					}
+				}
+			}
+			// a bottom prefix that cancels out: create some refs, delete them again (no reflog), something on
+			// top, then compact the two bottom tables into nothing while a table sits above them
+			if cancelPrefix && j < 4 && ntab == j && (j < 3 || ntab == 3) {
+				ui := st.NextUpdateIndex()
+				switch j {
+				case 0, 1:
+					o = hop{kind: "A"}
+					for k, nm := range cancelNames {
+						rec := reftable.RefRecord{RefName: nm, UpdateIndex: ui}
+						if j == 0 {
+							rec.Value = oids[k%3]
+						}
+						o.refs = append(o.refs, rec)
+					}
+				case 2:
+					if o.kind != "A" || len(o.refs)+len(o.logs) == 0 {
+						o = hop{kind: "A", refs: []reftable.RefRecord{{RefName: pool[0], UpdateIndex: ui, Value: oids[0]}}}
+					}
+					o.auto = false
+				case 3:
+					o = hop{kind: "C", first: 0, last: 1}
 				}
 			}
 			ops = append(ops, o.String())
